@@ -1,18 +1,19 @@
 #!/bin/bash
 # confirm_seed.sh <ID> <mN> : independently re-verify a sub-agent's seeded defect in its scratch worktree /tmp/seed/<ID>/wt:
 #   pristine: demo passes; with patch: builds, the 59 existing tests pass, demo fails.  Prints one summary line.
-ID=$1; M=$2; D=/tmp/seed/$ID/out/$M; WT=/tmp/seed/$ID/wt
+ID=$1; M=$2; BASE=${3:-/tmp/seed}; D=$BASE/$ID/out/$M; WT=$BASE/$ID/wt
 [ -f "$D/patch.diff" ] || { echo "$ID/$M: no patch"; exit 2; }
 cd "$WT" || exit 2
 git checkout -q -- . ; git clean -fdq -e target
+git checkout -q --detach "$(git -C /repo rev-parse HEAD)"   # always confirm against /repo's current HEAD
 export CARGO_NET_OFFLINE=true
 cargo build --offline -q 2>/dev/null || { echo "$ID/$M: pristine build failed"; exit 2; }
-( bash "$D/demo.sh" "$WT" ) >/tmp/seed/$ID/$M.pristine.log 2>&1; p=$?
+( bash "$D/demo.sh" "$WT" ) >$BASE/$ID/$M.pristine.log 2>&1; p=$?
 git checkout -q -- . ; git clean -fdq -e target
 git apply "$D/patch.diff" || { echo "$ID/$M: patch does not apply"; exit 2; }
-b=ok; cargo build --offline -q 2>/tmp/seed/$ID/$M.build.log || b=FAIL
+b=ok; cargo build --offline -q 2>$BASE/$ID/$M.build.log || b=FAIL
 t=$(cargo test --offline 2>&1 | grep -E "^test result" | awk '{p+=$4; f+=$6} END {print p"/"f}')
-( bash "$D/demo.sh" "$WT" ) >/tmp/seed/$ID/$M.mutant.log 2>&1; m=$?
+( bash "$D/demo.sh" "$WT" ) >$BASE/$ID/$M.mutant.log 2>&1; m=$?
 git checkout -q -- . ; git clean -fdq -e target
 v=CONFIRMED; { [ "$p" = 0 ] && [ "$m" != 0 ] && [ "$b" = ok ] && [ "${t%%/*}" = 59 ] && [ "${t##*/}" = 0 ]; } || v=REJECTED
 echo "$ID/$M: pristine_demo_rc=$p mutant_build=$b tests(pass/fail)=$t mutant_demo_rc=$m => $v"
